@@ -14,14 +14,14 @@ import (
 )
 
 func init() {
-	register(&Rule{ID: "R38", Title: "sent-slice-freshness: a slice handed to a token inside an action is not reused and overwritten by a later decision", Min: 6, Run: ruleR38})
+	register(&Rule{ID: "R38", Title: "sent-slice-freshness: a slice handed to a token inside an action is not reused and overwritten by a later decision", Min: 4, Run: ruleR38})
 	register(&Rule{ID: "R39", Title: "order-preserving: the gateway's candidate flows are an order-preserving filter of its outgoing flows; pointer comparisons are not vacuous", Min: 3, Run: ruleR39})
 	register(&Rule{ID: "R40", Title: "task answer path: done is closed on every path of the processor; retry steps its counter; exit returns; skip falls through", Min: 5, Run: ruleR40})
-	register(&Rule{ID: "R41", Title: "boundary events: cancel only once, transformer iff cancelActivity, events forwarded only while active, listeners registered with the harness", Min: 7, Run: ruleR41})
+	register(&Rule{ID: "R41", Title: "boundary events: cancel only once, transformer iff cancelActivity, events forwarded only while active, listeners registered with the harness", Min: 6, Run: ruleR41})
 	register(&Rule{ID: "R42", Title: "event forwarding: every consumer is visited, the list is copied under the lock and forwarded outside it, catch events match only while activated", Min: 4, Run: ruleR42})
-	register(&Rule{ID: "R43", Title: "timers: callback only after the clock channel fired, one-shot fires once, cycle loop tests and decrements its counter, mock clock sorts and removes", Min: 7, Run: ruleR43})
-	register(&Rule{ID: "R44", Title: "satisfiers: state changes only for matching events; Satisfy is called from one goroutine or under a lock", Min: 6, Run: ruleR44})
-	register(&Rule{ID: "R45", Title: "per-instance data: no unguarded mutable package-level state in the value/data layers; a fresh locator per instance", Min: 8, Run: ruleR45})
+	register(&Rule{ID: "R43", Title: "timers: callback only after the clock channel fired, one-shot fires once, cycle loop tests and decrements its counter, mock clock sorts and removes", Min: 6, Run: ruleR43})
+	register(&Rule{ID: "R44", Title: "satisfiers: state changes only for matching events; Satisfy is called from one goroutine or under a lock", Min: 4, Run: ruleR44})
+	register(&Rule{ID: "R45", Title: "per-instance data: no unguarded mutable package-level state in the value/data layers; a fresh locator per instance", Min: 5, Run: ruleR45})
 	register(&Rule{ID: "R46", Title: "process set: one cease-process-set send followed by return; one instantiation per throw message", Min: 3, Run: ruleR46})
 }
 
@@ -1455,6 +1455,7 @@ type boundFact struct {
 	a   boundTerm
 	rel string // "<", "<=", "=="
 	b   boundTerm
+	at  token.Pos // position of the condition the fact comes from
 }
 
 // factsOf decomposes cond (taken as true when pos, as false otherwise).
@@ -1504,17 +1505,18 @@ func factsOf(in *types.Info, cond ast.Expr, pos bool, out *[]boundFact) {
 			op = token.EQL
 		}
 	}
+	at := cond.End()
 	switch op {
 	case token.LSS:
-		*out = append(*out, boundFact{a, "<", b})
+		*out = append(*out, boundFact{a, "<", b, at})
 	case token.LEQ:
-		*out = append(*out, boundFact{a, "<=", b})
+		*out = append(*out, boundFact{a, "<=", b, at})
 	case token.GTR:
-		*out = append(*out, boundFact{b, "<", a})
+		*out = append(*out, boundFact{b, "<", a, at})
 	case token.GEQ:
-		*out = append(*out, boundFact{b, "<=", a})
+		*out = append(*out, boundFact{b, "<=", a, at})
 	case token.EQL:
-		*out = append(*out, boundFact{a, "==", b}, boundFact{b, "==", a})
+		*out = append(*out, boundFact{a, "==", b, at}, boundFact{b, "==", a, at})
 	}
 }
 
@@ -1529,16 +1531,12 @@ func ruleR47(c *Ctx) {
 			continue
 		}
 		in := info(f)
-		// only functions that range over parked reply channels
 		distributes := false
-		inspectNoLit(f.Body, func(m ast.Node) bool {
-			if rs, ok := m.(*ast.RangeStmt); ok {
-				if sl, ok := in.TypeOf(rs.X).Underlying().(*types.Slice); ok && isReplyChan(sl.Elem()) {
-					distributes = true
-				}
+		for _, pl := range parkedLoops(p) {
+			if pl.F == f {
+				distributes = true
 			}
-			return true
-		})
+		}
 		if !distributes {
 			continue
 		}
@@ -1566,6 +1564,77 @@ func ruleR47(c *Ctx) {
 					factsOf(in, ifs.Cond, false, &facts)
 				}
 			}
+			// guard clauses: earlier sibling `if cond { ...; continue|return|break }` statements in any
+			// enclosing statement list contribute the negation of their condition
+			var child ast.Node = se
+			for cur := p.Parent(se); cur != nil && cur != ast.Node(f.Body).(ast.Node); cur = p.Parent(cur) {
+				var list []ast.Stmt
+				switch x := cur.(type) {
+				case *ast.BlockStmt:
+					list = x.List
+				case *ast.CaseClause:
+					list = x.Body
+				case *ast.CommClause:
+					list = x.Body
+				}
+				for _, st := range list {
+					if st.End() > child.Pos() {
+						break
+					}
+					g, ok := st.(*ast.IfStmt)
+					if !ok || g.Else != nil || len(g.Body.List) == 0 {
+						continue
+					}
+					switch g.Body.List[len(g.Body.List)-1].(type) {
+					case *ast.BranchStmt, *ast.ReturnStmt:
+						factsOf(in, g.Cond, false, &facts)
+					}
+				}
+				child = cur
+				if _, isFn := cur.(*ast.FuncLit); isFn {
+					break
+				}
+			}
+			// facts about a variable are void if it is assigned between the fact and the use; the
+			// conservative test: every variable in a used fact has no assignment inside the innermost
+			// enclosing loop body after the fact's position (checked by position order below)
+			// drop facts about variables that are assigned between the condition and the slice
+			assignedBetween := func(o types.Object, from, to token.Pos) bool {
+				hit := false
+				inspectNoLit(f.Body, func(z ast.Node) bool {
+					switch x := z.(type) {
+					case *ast.AssignStmt:
+						if x.Pos() > from && x.Pos() < to {
+							for _, l := range x.Lhs {
+								if id, ok := unparen(l).(*ast.Ident); ok && objOf(in, id) == o {
+									hit = true
+								}
+							}
+						}
+					case *ast.IncDecStmt:
+						if x.Pos() > from && x.Pos() < to {
+							if id, ok := unparen(x.X).(*ast.Ident); ok && objOf(in, id) == o {
+								hit = true
+							}
+						}
+					}
+					return true
+				})
+				return hit
+			}
+			var live []boundFact
+			for _, ft := range facts {
+				stale := false
+				for _, tm := range []boundTerm{ft.a, ft.b} {
+					if tm.kind == "id" && assignedBetween(tm.obj, ft.at, se.Pos()) {
+						stale = true
+					}
+				}
+				if !stale {
+					live = append(live, ft)
+				}
+			}
+			facts = live
 			has := func(a boundTerm, b boundTerm, strictOK bool) bool {
 				for _, ft := range facts {
 					if sameTerm(ft.a, a) && sameTerm(ft.b, b) && (ft.rel == "<=" || ft.rel == "==" || (strictOK && ft.rel == "<")) {
